@@ -647,6 +647,93 @@ def c19_seq_edge_cases(rng):
     return out
 
 
+def metadata_resend_case(cfg: Cfg, data, opts, nak_after, tag="c08o"):
+    """Acknowledged sender whose put request carries every kind of Metadata option (filestore requests, fault handler
+    overrides, flow label, messages to user - the options the model does not interpret): NAKs asking for the Metadata
+    (0,0) arrive after [nak_after] calls each; returns the packed bytes of every Metadata PDU the sender emitted."""
+    from spacepackets.cfdp import ConditionCode, FaultHandlerCode
+    from spacepackets.cfdp.tlv import (FaultHandlerOverrideTlv, FileStoreRequestTlv, FilestoreActionCode, FlowLabelTlv)
+    from harness.transfer import PutRequest, TransmissionMode, UnsignedByteField
+    w = World(cfg, tag)
+    try:
+        c = w.cfg
+        w.src.fs_op([7, 1] + codec.enc_path(c.src_path) + [len(data)] + list(data))
+        kw = {}
+        if "fs" in opts:
+            kw["fs_requests"] = [FileStoreRequestTlv(FilestoreActionCode.CREATE_FILE_SNM, first_file_name="/tmp/x"),
+                                 FileStoreRequestTlv(FilestoreActionCode.DELETE_FILE_SNN, first_file_name="/tmp/y")][:opts["fs"]]
+        if "fh" in opts:
+            kw["fault_handler_overrides"] = [FaultHandlerOverrideTlv(ConditionCode.FILE_SIZE_ERROR, FaultHandlerCode.IGNORE_ERROR)]
+        if "flow" in opts:
+            kw["flow_label_tlv"] = FlowLabelTlv(bytes([1, 2, 3]))
+        if "msgs" in opts:
+            kw["msgs_to_user"] = [codec.msg_from_code(m) for m in opts["msgs"]]
+        req = PutRequest(UnsignedByteField(c.dst_id, c.dst_idw), w.pm.to_path(c.src_path), w.pm.to_path(c.dst_path),
+                         TransmissionMode(0), None, **kw)
+        s = w.src
+        if not s.h.put_request(req):
+            return None
+        mds = []
+
+        def drain():
+            while True:
+                hd = s.h.get_next_packet()
+                if hd is None:
+                    return
+                if codec.enc_pdu(hd.pdu, w.pm)[0] == codec.K_MD:
+                    mds.append(bytes(hd.pdu.pack()))
+        calls = 0
+        pending = sorted(nak_after)
+        for _ in range(60):
+            s.h.state_machine(None)
+            drain()
+            calls += 1
+            while pending and pending[0] <= calls:
+                pending.pop(0)
+                seq = s.h.transaction_seq_num.value
+                hh = campaign._hdr(c, 1, seq)
+                try:
+                    s.h.state_machine(codec.reparse(codec.build_pdu(campaign.pdu_ints(codec.K_NAK, hh, [0, len(data), 1, 0, 0]), w.pm)))
+                except Exception:  # noqa: BLE001  refused in that step: other properties
+                    pass
+                drain()
+            if s.h.state.value == 0 or (not pending and calls > max(nak_after, default=0) + 3):
+                break
+        return mds
+    finally:
+        w.close()
+
+
+def cancel_after_failed_read_case(cfg: Cfg, data, k, tag="c12r"):
+    """Sender: k calls, then the source file is missing for ONE call (the read of the next segment fails, nothing is
+    emitted), is put back unchanged, and the user cancels: the EOF (cancel) states exactly the bytes that were SENT."""
+    w = World(cfg, tag)
+    try:
+        start_transfer(w, data)
+        s = w.src
+
+        def drain():
+            while s.get() is not None:
+                pass
+        for _ in range(k):
+            s.sm(None)
+            drain()
+        s.fs_op([7, 2] + codec.enc_path(cfg.src_path))
+        s.sm(None)
+        drain()
+        s.fs_op([7, 1] + codec.enc_path(cfg.src_path) + [len(data)] + list(data))
+        t = s.h.transaction_id
+        if t is not None:
+            s.cancel(t.source_id.value, t.seq_num.value)
+        drain()
+        for _ in range(3):
+            s.sm(None)
+            drain()
+        return ("source", s.ops, s.obs)
+    finally:
+        w.close()
+
+
 def cancel_around_nak_case(cfg: Cfg, data, k_calls, reqs, m_after, drain_before_cancel=True, tag="c12n"):
     """Acknowledged sender: k empty calls, a NAK with the requests [reqs], the answer retrieved, m further empty calls,
     then the user's cancel request (injected between two state-machine calls, also right after the retransmitted PDUs were
